@@ -23,31 +23,31 @@ CLAIMS = {
  "C06": ("must-pass-through and value-DAG rules on the decoder epilogue",
          "Decides (narrow): every exit whose status is not a starvation status hands back the whole unread bytes of the bit buffer and subtracts them from the reported count; the final-block sequence pad → undo → rewind iterator → mask runs in that order; undo_bytes computes min(num_bits/8, max) and keeps the rest. NOT decided: that the count is right for every bit position at which a final block can end."),
  "C07": ("write-back / liveness over the state-machine loop",
-         "Decides: all decoder registers are loaded from and stored back to the persistent state around every call (also in decompress_fast), no other local carries state across loop iterations, and HasMoreOutput overrides NeedsMoreInput exactly when the output window is full outside the trailer read. NOT decided: equality of output across chunkings."),
+         "Decides: all decoder registers are loaded from and stored back to the persistent state around every call (also in decompress_fast), no other local carries state across loop iterations, and HasMoreOutput overrides NeedsMoreInput exactly when the output window is full outside the trailer read; multi-byte fields are collected through a persisted counter; every path on which a state suspends (needs-more-input / has-more-output with the state unchanged) has modified nothing but the bit buffer and the input position, or only idempotently, so re-entering the state is harmless. NOT decided: equality of output across chunkings."),
  "C20": ("compiler verdicts per configuration, rustc_lexer token scan, compile-time witness crate",
          "Full claim: every buildable configuration (8 host feature sets, 2 thumbv7em build-std configurations, x86_64-unknown-none) compiles with an unconditional in-crate #![forbid(unsafe_code)] in force, so rustc itself rejects any unsafe code; a token scan of every source file (including code compiled out everywhere) finds no unsafe / linkage attribute / include; the core-only sysroot builds prove no_std + no allocator; a witness crate instantiates Send + Sync + Clone + 'static for the public state types (with compile_fail twins in the thorough tier)."),
  "C09": ("finite-domain evaluation of configuration tables, dominance and path tables on MIR",
          "Decides (substantial): every reachable compressor configuration (3 formats x 11 levels x 5 strategies x 16 window settings, plus clamps and CompressorOxide::new) yields an RFC 1950 valid header; the header is emitted only under the zlib flag at block_index 0 and block_index always advances; the trailer is the four bytes of params.adler32, most significant first, after byte alignment, and nothing follows; the running Adler-32 is updated with exactly the consumed input; the decoder's epilogue returns Done in zlib mode only if the trailer equals the freshly updated checksum (Adler32Mismatch otherwise) unless IGNORE_ADLER32; validate_zlib_header equals the RFC 1950 predicate on all 2^16 pairs. NOT decided: the numeric value of the checksum (delegated to adler2 / simd-adler32)."),
  "C18": ("field-effect summaries (may/must-write), liveness over the extracted decoder automaton",
-         "Decides: every field the compression data path may write is must-written by CompressorOxide::reset (derived from the fact base, not hand-listed); each InflateState reset policy must-writes every field inflate() may write; after DecompressorOxide::init() no scalar decoder field is read before it is written on any path from State::Start; no mutable statics, hash-randomised containers, clocks, environment or pointer-to-integer casts; mz_deflateReset reaches CompressorOxide::reset. NOT decided: byte-identical output after reset for all histories; prefix-written decoder arrays are outside the scalar liveness. Known finding KF-5 (MinReset leaves the window)."),
+         "Decides: every field the compression data path may write is must-written by CompressorOxide::reset (derived from the fact base, not hand-listed); each InflateState reset policy must-writes every field inflate() may write; after DecompressorOxide::init() no scalar decoder field is read before it is written on any path from State::Start; no mutable statics, hash-randomised containers, clocks, environment or pointer-to-integer casts; mz_deflateReset reaches CompressorOxide::reset; init_tree rebuilds the Huffman tables from scratch (whole fast table, whole overflow tree). NOT decided: byte-identical output after reset for all histories; the other prefix-written decoder arrays are outside the scalar liveness. Known finding KF-5 (MinReset leaves the window)."),
  "C03": ("table oracle (RFC 1951 written independently), extracted index expressions, inductive path evaluation on MIR",
-         "Decides (tables / grammar / bit discipline only): decoder base/extra tables, code-length order, table-size bases and widths, repeat-code parameters and fixed-block lengths equal RFC 1951 as the code uses them; the stored-block header is collected through a persisted counter; repeat codes fill exactly [counter, counter+run) with the previous length (16) or zero (17/18) and advance the counter by the run; the slow-path Huffman walk never lets a bit beyond num_bits decide (base case + inductive step). NOT decided: canonical code assignment in init_tree, the tree walk result, apply_match/transfer copy semantics — i.e. conformance over the language of valid streams."),
+         "Decides (tables / grammar / bit discipline only): decoder base/extra tables, code-length order, table-size bases and widths, repeat-code parameters and fixed-block lengths equal RFC 1951 as the code uses them; the stored-block header is collected through a persisted counter; repeat codes fill exactly [counter, counter+run) with the previous length (16) or zero (17/18) and advance the counter by the run; the slow-path Huffman walk never lets a bit beyond num_bits decide (base case + inductive step); init_tree overwrites the whole fast table and zeroes the whole overflow tree (litlen/dist) before inserting anything. NOT decided: canonical code assignment in init_tree, the tree walk result, apply_match/transfer copy semantics — i.e. conformance over the language of valid streams."),
  "C01": ("table oracle, path tables, finite-domain evaluation of configuration code on MIR",
          "Decides structural clauses only: the encoder's symbol/extra-bit computation (index expressions extracted from compress_lz_codes) agrees with RFC 1951 and with the decoder's tables for all 256 lengths and 32768 distances, and record_match counts the symbols that are emitted; fixed-block lengths agree; every dictionary writer mirrors positions < 257 past the window end; the grow-and-retry loops account exactly and panic only on an impossible status; levels above 10 behave as 10 with no out-of-range probe index; every flush_block result is checked; the stored-block source position advances by exactly the bytes a block encoded. NOT decided: that LZ parsing, Huffman construction and bit packing reproduce the input for all data; absence of panics on the compression path."),
  "C08": ("per-path write budget against established space facts, who-may-write, path tables on MIR",
          "Decides: the granted window is min(out_pos + out_max, len) and bytes_left is relative to it; the output slice is written only through write_byte / write_slice / apply_match / transfer; on every path of every state-machine arm and of the fast loop the bytes that may be written (maximum match length taken from the tables) do not exceed the space the path has verified; HasMoreOutput only with a full window; transfer()'s word loops are bounded by match_len rounded down to 4 and the tail is copied on every return; the vector helpers cap allocation/growth by the limit. NOT decided: that the copy loops of transfer stay below max for every (length, position) beyond those bounds; byte-exact preservation outside the window."),
  "C10": ("table oracle, finite-domain routing table, call-graph reachability, dominance on MIR",
-         "Decides: encoder tables and fixed lengths equal RFC 1951; for all 3x11x5x16 configurations exactly one compress routine is reachable, level 0 / raw only reaches compress_stored (which reaches no match or literal recording), RLE and Filtered never reach compress_fast, the fixed strategy forces static blocks at every compress_block call, Huffman-only has a probe budget that makes find_match return at once, the run-length branch uses distance 1 without hash search, filtered mode never records a fresh match <= 5; code-length limits 15/15/7, dynamic header field widths, stored LEN/NLEN, BFINAL from flush == Finish; exactly one final block; length limiting (every exit of enforce_max_code_size with more than one symbol has merged all over-long codes into the limit bucket, the rebalancing step is symbol-count neutral and lowers the Kraft sum by one unit, optimize_table applies it with its own limit before any code size is assigned). NOT decided: completeness/optimality of generated codes beyond those structural conditions, match validity, compression ratio."),
+         "Decides: encoder tables and fixed lengths equal RFC 1951; for all 3x11x5x16 configurations exactly one compress routine is reachable, level 0 / raw only reaches compress_stored (which reaches no match or literal recording), RLE and Filtered never reach compress_fast, the fixed strategy forces static blocks at every compress_block call, Huffman-only has a probe budget that makes find_match return at once, the run-length branch uses distance 1 without hash search, filtered mode never records a fresh match <= 5; matches never reach behind dict.size; code-length limits 15/15/7, dynamic header field widths, stored LEN/NLEN, BFINAL from flush == Finish; exactly one final block; length limiting (every exit of enforce_max_code_size with more than one symbol has merged all over-long codes into the limit bucket, the rebalancing step is symbol-count neutral and lowers the Kraft sum by one unit, optimize_table applies it with its own limit before any code size is assigned). NOT decided: completeness/optimality of generated codes beyond those structural conditions, match validity, compression ratio."),
  "C11": ("finite-domain evaluation of configuration code + value-bound of the distance admission terms on MIR",
          "Decides (substantial): for every zlib configuration of with_params (and for every flags class x window_bits_max that later level/format changes can install) the upper bound of the admitted match distance — the term the distance is compared against in compress_fast, the max_dist argument of find_match, 1 in the run-length branch, evaluated with the invariant dict.size <= 32768 derived from all its writers — does not exceed the window the header declares. Two genuine defects found by this check were repaired (KF-1, KF-2; see known_findings.json)."),
  "C16": ("call-shape rules, single-writer (field effects) and path tables on MIR, in the scalar and simd configurations",
          "Decides: update_adler32 is exactly from_checksum(seed) / write(data) / checksum|finish on the library hasher with seed and data passed through unchanged, in both the adler2 and simd-adler32 builds, and is the crate's only caller into those libraries; mz_crc32_oxide likewise on crc32fast; the compressor's running sum is updated with exactly in_buf[..src_pos] after a successful compress routine; the decoder's running sum has Start and the epilogue update over out[out_pos..position) as its only writers; mz_adler32 / mz_crc32 return the initial value for NULL and otherwise forward (value as u32, the (ptr,len) slice) and widen; stream.adler is refreshed after every stream call. NOT decided: the arithmetic inside adler2, simd-adler32, crc32fast (external crates)."),
  "C17": ("per-path null-fact discipline, path tables, finite-domain evaluation on the MIR of all exported extern \"C\" functions",
-         "Decides: every use (dereference, from_raw_parts, ptr::add/write/copy, unwrap of as_mut) of a pointer parameter of the 37 exported extern \"C\" functions happens on a path that has established the pointer is non-null; no field-less Rust enum is taken by value from C (known finding KF-4: tdefl_flush); every mz_* stream function reaches the oxide layer only through StreamOxide::try_new inside catch_unwind, NULL stream -> MZ_STREAM_ERROR, try_new rejects the other stream kind and custom allocators without touching the stream; mz_deflateInit2 / mz_inflateInit2 parameter validation over the quantifier's finite domain; next_in/next_out/total_in/total_out/adler accounting identities and the into_mz_stream write-back; status/flush enums keep their numeric values across the boundary. Genuine defect KF-3 (NULL dereferences in tinfl_*) was found by this check and repaired. NOT decided: byte-for-byte equality with the Rust API, guard-page behaviour, size arithmetic of the heap growth loops."),
+         "Decides: every use (dereference, from_raw_parts, ptr::add/write/copy, unwrap of as_mut) of a pointer parameter of the 37 exported extern \"C\" functions happens on a path that has established the pointer is non-null; no field-less Rust enum is taken by value from C (known finding KF-4: tdefl_flush); every mz_* stream function reaches the oxide layer only through StreamOxide::try_new inside catch_unwind, NULL stream -> MZ_STREAM_ERROR, try_new rejects the other stream kind and custom allocators without touching the stream; mz_deflateInit2 / mz_inflateInit2 parameter validation over the quantifier's finite domain; next_in/next_out/total_in/total_out/adler accounting identities and the into_mz_stream write-back; mz_deflate_oxide / mz_inflate_oxide refuse a call without forwarding it to the Rust function only for a missing stream part or an invalid flush value; status/flush enums keep their numeric values across the boundary. Genuine defect KF-3 (NULL dereferences in tinfl_*) was found by this check and repaired. NOT decided: byte-for-byte equality with the Rust API, guard-page behaviour, size arithmetic of the heap growth loops."),
  "C19": ("item/impl facts, compile-time witness crate, liveness over the extracted automaton, record/rebuild symmetry on MIR",
-         "Decides: Clone on the decoder state types is #[derive]d over plain data (no pointers, cells, shared ownership); under serde, Serialize/Deserialize are derived, the derived serialize() writes every field, and no serde attribute other than the BigArray adapter occurs; witness crate bounds (Clone + Send + Sync + 'static, Serialize + DeserializeOwned); BlockBoundary has a single origin (non-final block under the flag), the exit hands back unread bytes and re-enters at ReadBlockHeader, block_boundary_state / from_block_boundary_state are field-for-field symmetric, and every scalar register that is live at ReadBlockHeader is either in the record or provably equal at every boundary to the constant the rebuild assigns; all registers are written back on every exit. NOT decided: equality of the resumed run with the uninterrupted one."),
+         "Decides: Clone on the decoder state types is #[derive]d over plain data (no pointers, cells, shared ownership); under serde, Serialize/Deserialize are derived, the derived serialize() writes every field, and no serde attribute other than the BigArray adapter occurs; witness crate bounds (Clone + Send + Sync + 'static, Serialize + DeserializeOwned); BlockBoundary has a single origin (non-final block under the flag), every block ends through BlockDone (the next block header is entered only from the stream prologue or BlockDone, and BlockDone never continues under the flag), the exit hands back unread bytes and re-enters at ReadBlockHeader, block_boundary_state / from_block_boundary_state are field-for-field symmetric, and every scalar register that is live at ReadBlockHeader is either in the record or provably equal at every boundary to the constant the rebuild assigns; all registers are written back on every exit. NOT decided: equality of the resumed run with the uninterrupted one."),
  "C12": ("path tables and must-write effects on MIR",
-         "Decides: the bit sequence of every flush marker equals the RFC 1951 empty stored / empty fixed block, with the *Opt forms only when unaligned; Full flush clears hash chains and dictionary size after a successful block; markers are emitted only with all input consumed, lookahead empty and nothing pending; flush conversions are total and value preserving; exits of the deflate() driver loop. NOT decided: prefix decodability and independence of the post-flush remainder for all inputs."),
+         "Decides: the bit sequence of every flush marker equals the RFC 1951 empty stored / empty fixed block, with the *Opt forms only when unaligned; Full flush clears hash chains and dictionary size after a successful block; every admitted match distance is at most dict.size (admission terms of compress_fast / find_match are min(dict.size, ..); the run-length branch looks back only under dict.size != 0), so nothing reaches across the cut; markers are emitted only with all input consumed, lookahead empty and nothing pending; flush conversions are total and value preserving; exits of the deflate() driver loop. NOT decided: prefix decodability and independence of the post-flush remainder for all inputs."),
  "C13": ("path-sensitive decision tables on MIR",
          "Decides the status protocol of inflate()/inflate_loop()/push_dict_out as decision tables over all paths: Full -> stream error without touching state, sticky data/buffer errors before any decode, has_flushed gating, every decoder status recorded, status -> error mapping agreement between the two decode paths, StreamEnd only with Done and an empty window, counts are exactly the sums returned by the layer below, buffer modes never mix. NOT decided: termination/progress of the driver loop as a numeric argument, prefix property of delivered bytes."),
  "C14": ("path-sensitive decision tables on MIR",
